@@ -499,6 +499,8 @@ def call_method(ip, recv, name, args, kwargs):
         return strings.method(ip, recv, name, args, kwargs)
     if isinstance(recv, DictView):
         raise Unsupported(f"dictview.{name}")
+    if type(recv).__name__ == "MatchObj":
+        return ip.w.match_method(ip, recv, name, list(args), kwargs)
     if type(recv).__name__ == "Opaque":
         h = getattr(ip.w, "opaque_methods", {}).get(recv.tag)
         if h is not None:
